@@ -7,13 +7,14 @@ from vmon.ref import gp as R
 MEANS = ["Constant", "Linear", "Quadratic"]
 
 
-def random_spec(rng, depth=0, allow_noise=True, allow_cp=True, max_cp=4):
+def random_spec(rng, depth=0, allow_noise=True, allow_cp=True, max_cp=4, cp_noise=False):
+    """cp_noise: the kernels of a change-point may be sums that contain a noise term (noise that differs between regions)."""
     r = rng.random()
     if depth >= 2 or r < 0.35:
         return (str(rng.choice(["SE", "RQ"])),)
     if r < 0.65:
         n = int(rng.integers(2, 5 if depth == 0 else 3))
-        parts = [random_spec(rng, depth + 1, allow_noise=False, allow_cp=allow_cp, max_cp=max_cp) for _ in range(n)]
+        parts = [random_spec(rng, depth + 1, allow_noise=False, allow_cp=allow_cp, max_cp=max_cp, cp_noise=cp_noise) for _ in range(n)]
         # flatten nested sums: the library flattens on __add__
         flat = []
         for p in parts:
@@ -25,7 +26,9 @@ def random_spec(rng, depth=0, allow_noise=True, allow_cp=True, max_cp=4):
         n = int(rng.integers(2, max_cp + 1))
         kernels = []
         for _ in range(n):
-            if depth == 0 and rng.random() < 0.25:
+            if cp_noise and rng.random() < 0.3:
+                sub = ("SUM", [(str(rng.choice(["SE", "RQ"])),), (str(rng.choice(["WN", "WN", "HN"])),)][:: int(rng.choice([1, -1]))])
+            elif depth == 0 and rng.random() < 0.25:
                 sub = random_spec(rng, depth + 1, allow_noise=False, allow_cp=False)
             else:
                 sub = (str(rng.choice(["SE", "RQ"])),)
@@ -157,6 +160,8 @@ def random_mean_theta(name, rng, x, y_scale):
     t = [rng.normal() * y_scale]
     if name == "UserDecay":
         return np.array([t[0], rng.uniform(0.2, 3.0)])
+    if name == "UserBump":
+        return np.array([t[0], rng.uniform(0.3, 3.0)])
     if name in ("Linear", "Quadratic"):
         t.extend(rng.normal(size=d) * y_scale / span)
     if name == "Quadratic":
@@ -169,6 +174,8 @@ def build_repo_mean(name):
 
     if name == "UserDecay":
         return user_decay_class()()
+    if name == "UserBump":
+        return user_bump_class()()
     return {"Constant": M.ConstantMean, "Linear": M.LinearMean, "Quadratic": M.QuadraticMean}[name]()
 
 
@@ -197,7 +204,8 @@ def user_decay_class():
 
             def __call__(self, q, theta):
                 sq = (np.atleast_2d(np.asarray(q, float))[:, 0] - self.lo) / self.rng_
-                return theta[0] * np.exp(-theta[1] * sq)
+                out = theta[0] * np.exp(-theta[1] * sq)
+                return out[0] if out.size == 1 else out       # (a number for one point, as the library's own means return)
 
             def build_mean(self, theta):
                 return theta[0] * np.exp(-theta[1] * self.s)
@@ -208,3 +216,43 @@ def user_decay_class():
 
         UserDecayMean.__module__ = __name__
     return UserDecayMean
+
+
+def user_bump_class():
+    """A second user-written mean: m(x) = a * exp(-|u|^2 / (2 w^2)), u = (x - centroid) / extent of the training inputs.
+    Its __call__ is written for what the interface hands it - one point at a time (shape (d,) or (1, d))."""
+    from inference.gp import mean as M
+
+    global UserBumpMean
+    if "UserBumpMean" not in globals():
+        class UserBumpMean(M.MeanFunction):
+            def __init__(self, hyperpar_bounds=None):
+                self.bounds = hyperpar_bounds
+                self.n_params = 2
+                self.hyperpar_labels = ["bump amplitude", "bump width"]
+
+            def pass_spatial_data(self, x):
+                x = np.asarray(x, float)
+                self.c = x.mean(axis=0)
+                ext = np.ptp(x, axis=0)
+                self.ext = np.where(ext > 0, ext, 1.0)
+                self.r2 = (((x - self.c) / self.ext) ** 2).sum(axis=1)
+                self.n_data = x.shape[0]
+
+            def estimate_hyperpar_bounds(self, y):
+                w = y.max() - y.min()
+                self.bounds = [(y.min() - w, y.max() + w), (0.1, 5.0)]
+
+            def __call__(self, q, theta):
+                u = (np.squeeze(np.asarray(q, float)) - self.c) / self.ext      # one point
+                return theta[0] * np.exp(-0.5 * (u**2).sum() / theta[1] ** 2)
+
+            def build_mean(self, theta):
+                return theta[0] * np.exp(-0.5 * self.r2 / theta[1] ** 2)
+
+            def mean_and_gradients(self, theta):
+                e = np.exp(-0.5 * self.r2 / theta[1] ** 2)
+                return theta[0] * e, [e, theta[0] * e * self.r2 / theta[1] ** 3]
+
+        UserBumpMean.__module__ = __name__
+    return UserBumpMean
